@@ -547,6 +547,56 @@ func ruleC08KindGroups(c *Ctx) {
 			}
 		})
 	}
+	// the object keywords run only for maps whose key kind is String: a test of instance.Type().Key().Kind() that
+	// returns an error dominates every keyed access
+	var keyKindTest *ssa.If
+	core.EachInstr(m.E, func(i ssa.Instruction) {
+		ifi, ok := i.(*ssa.If)
+		if !ok {
+			return
+		}
+		bo, ok := ifi.Cond.(*ssa.BinOp)
+		if !ok || (bo.Op != token.NEQ && bo.Op != token.EQL) {
+			return
+		}
+		k, isK := bo.Y.(*ssa.Const)
+		kv, okv := constInt(k)
+		if !isK || !okv || kv != kString {
+			return
+		}
+		kc, ok := bo.X.(*ssa.Call)
+		if !ok || !kc.Call.IsInvoke() || kc.Call.Method.Name() != "Kind" {
+			return
+		}
+		// receiver: instance.Type().Key()
+		if keyc, ok := kc.Call.Value.(*ssa.Call); ok && keyc.Call.IsInvoke() && keyc.Call.Method.Name() == "Key" {
+			if tc, ok := keyc.Call.Value.(*ssa.Call); ok && core.CalleeKey(&tc.Call) == "reflect.Value.Type" && isSame(tc.Call.Args[0]) {
+				failSucc := ifi.Block().Succs[0]
+				if bo.Op == token.EQL {
+					failSucc = ifi.Block().Succs[1]
+				}
+				if blockReturnsError(failSucc) || blockReturnsErrorDeep(failSucc) {
+					keyKindTest = ifi
+				}
+			}
+		}
+	})
+	if keyKindTest == nil {
+		c.R.Bad(rule, "object-group:string-keys-only", c.P.Pos(m.E.Pos()), "the evaluator does not refuse maps whose key kind is not string before the object keywords: the keyed access converts a string to the map's key type and reflect panics for, e.g., map[int]any")
+	} else {
+		okDom := true
+		core.EachInstr(m.E, func(i ssa.Instruction) {
+			if call, ok := i.(*ssa.Call); ok {
+				callee := call.Call.StaticCallee()
+				if callee != nil && c.P.InPkg(callee) && (callee.Name() == "property" || callee.Name() == "properties") && len(call.Call.Args) > 0 && isSame(call.Call.Args[0]) {
+					if !core.Dominates(keyKindTest, call) {
+						okDom = false
+					}
+				}
+			}
+		})
+		c.R.Check(okDom, rule, "object-group:string-keys-only", c.pos(keyKindTest), "maps with a non-string key kind are refused before any keyed access", "a keyed access to the instance is reachable without passing the test of the map's key kind")
+	}
 	// coverage: the array keywords run for Go arrays and slices alike, the object keywords for maps, the string keywords for strings
 	for _, s := range m.Sites {
 		if s.Call.Parent() != m.E || s.Loc != "child" {
